@@ -466,4 +466,51 @@ namespace) is a payload the two theorems apply to -/
 example : (⟨⟨"urn:app", "outer"⟩, [], [.start ⟨"urn:app2", "text"⟩ [], .chars "n", .stop ⟨"urn:app2", "text"⟩], ⟨"urn:app", "outer"⟩⟩ : Elem).ok := by
   simp [Elem.ok]; decide
 
+
+/-! ### several token readers alive at the same time (round 5) -/
+
+/-- regenerated: `internal/marshal` (the conversion behind every reader made from a struct value)
+has no package-level variable: no pool, cache or scratch buffer outlives a conversion -/
+theorem C13_gen_marshal_stateless : Generated.C13.marshalGlobals = some [] := by decide
+
+open Readers in
+theorem Readers.makeAll_fresh : ∀ (vs : List (List Tok)) (s : St),
+    (makeAll false s vs).bufs = s.bufs ++ vs := by
+  intro vs
+  induction vs with
+  | nil => intro s; simp [makeAll]
+  | cons v vs ih => intro s; simp [makeAll, ih, make]
+
+open Readers in
+theorem Readers.drainAll_fresh : ∀ (order : List Nat) (s : St), order.Nodup →
+    drainAll false s order = order.map fun i => s.bufs.getD i [] := by
+  intro order
+  induction order with
+  | nil => intro s _; rfl
+  | cons i is ih =>
+    intro s hn
+    have hi : i ∉ is := (List.nodup_cons.mp hn).1
+    simp only [drainAll, drain, bufOf, List.map_cons, Bool.false_eq_true, if_false]
+    rw [ih _ (List.nodup_cons.mp hn).2]
+    congr 1
+    apply List.map_congr_left
+    intro j hj
+    have hne : i ≠ j := fun h => hi (h ▸ hj)
+    simp [List.getD_eq_getElem?_getD, List.getElem?_set_ne hne]
+
+open Readers in
+/-- **readers are independent**: any number of values converted before any reader is read, the
+readers drained in any order (each once): every reader yields the tokens of its own value -/
+theorem C13_readers_independent (vs : List (List Tok)) (order : List Nat) (hn : order.Nodup) :
+    drainAll false (makeAll false init vs) order = order.map fun i => vs.getD i [] := by
+  rw [Readers.drainAll_fresh order _ hn, Readers.makeAll_fresh]
+  simp [init]
+
+open Readers in
+/-- with a recycled scratch buffer the statement fails for two values already: the first reader
+yields the second value's tokens and the second nothing -/
+theorem C13_readers_shared_buffer_fails :
+    drainAll true (makeAll true init [[.chars "a"], [.chars "b"]]) [0, 1] = [[.chars "b"], []] := by
+  decide
+
 end XmppModel.Props.C13
